@@ -53,6 +53,12 @@ func (c *Ctx) leftRecMarks() map[string][]string {
 		body := p[iL+1 : hi]
 		ret := lastReturn(p)
 		first := splitTop(ret, ",")[0]
+		if dollarRe.FindString(first) == first {
+			// a flag declared without a value and never set on this path is false
+			if v, _ := lastSet(p, first); v == "zero" {
+				first = "false"
+			}
+		}
 		if p.hasCall("panic(") {
 			continue
 		}
@@ -251,7 +257,7 @@ func (c *Ctx) firstGraphShape() (edges, shape string) {
 					} else {
 						eb = append(eb, "the edges of a rule are stored only under `"+strings.Join(p[lo:i].facts(), "`, `")+"`")
 					}
-				case strings.HasPrefix(val, "make(map[string]struct{}") || val == "map[string]struct{}{}":
+				case isEmptySetValue(val):
 					nEmpty++
 				default:
 					sb = append(sb, "the graph gets `"+abbreviate(e.Text)+"`: out-edges must come from a defined rule's InitialNames(), every other vertex gets an empty set")
@@ -285,4 +291,16 @@ func posKeyOf(key string, loopAt map[int]string) string {
 		return ""
 	}
 	return loopAt[d]
+}
+
+
+var emptyLitRe = regexp.MustCompile(`^[A-Za-z_][\w\.\[\]\{\}]*\{\}$`)
+
+// isEmptySetValue: a freshly made map or an empty composite literal (of the set type or an alias of it).
+func isEmptySetValue(v string) bool {
+	if strings.HasPrefix(v, "make(") && wholeCall(v) {
+		args := splitTop(v[len("make("):len(v)-1], ",")
+		return len(args) >= 1 && len(args) <= 2
+	}
+	return emptyLitRe.MatchString(v)
 }
